@@ -671,6 +671,130 @@ def rule_K4(chk, prog, cached):
             chk.ok("K4", f0, f"{name}: complete", {"functions": len(lst)})
 
 
+K8_EXCEPTIONS = {
+    ("yastn/backend/backend_np.py", "rng"): "holder of the random generator; random_seed() replaces it by request of the user (documented), it memoises nothing",
+}
+_K8_MUT = ("setdefault", "append", "add", "update", "extend", "pop", "clear", "insert", "popitem", "remove", "discard", "appendleft")
+_K8_FIXTURE = """
+_labels = {}
+def f(key, order):
+    d = _labels.get(key)
+    if d is None:
+        d = {v: i for i, v in enumerate(order)}
+    _labels[key] = d
+    return d
+"""
+
+
+def _module_memo_writes(tree):
+    """[(function, global name, node)]: a function stores into a mutable container created at module level (or rebinds a module
+    name declared `global`): state that survives the call and that neither lru_cache's key discipline nor clear_cache() knows."""
+    glob = {}
+    for st in tree.body:
+        if isinstance(st, (ast.Assign, ast.AnnAssign)):
+            tg = st.targets[0] if isinstance(st, ast.Assign) else st.target
+            v = st.value
+            if isinstance(tg, ast.Name) and v is not None and (
+                    isinstance(v, (ast.Dict, ast.List, ast.Set, ast.DictComp, ast.ListComp, ast.SetComp)) or
+                    (isinstance(v, ast.Call) and isinstance(v.func, (ast.Name, ast.Attribute)) and
+                     (v.func.id if isinstance(v.func, ast.Name) else v.func.attr) in ("dict", "list", "set", "defaultdict", "OrderedDict", "deque", "WeakValueDictionary"))):
+                glob[tg.id] = st
+    out = []
+    for fn in ast.walk(tree):
+        if not isinstance(fn, (ast.FunctionDef, ast.AsyncFunctionDef)):
+            continue
+        gl = {x for n in ast.walk(fn) if isinstance(n, ast.Global) for x in n.names}
+        local = ({a.arg for a in fn.args.posonlyargs + fn.args.args + fn.args.kwonlyargs} |
+                 ({fn.args.vararg.arg} if fn.args.vararg else set()) | ({fn.args.kwarg.arg} if fn.args.kwarg else set()) |
+                 {n.id for n in ast.walk(fn) if isinstance(n, ast.Name) and isinstance(n.ctx, ast.Store)}) - gl
+        for n in ast.walk(fn):
+            nm = None
+            if isinstance(n, ast.Subscript) and isinstance(n.ctx, (ast.Store, ast.Del)) and isinstance(n.value, ast.Name):
+                nm = n.value.id
+            elif isinstance(n, ast.Call) and isinstance(n.func, ast.Attribute) and n.func.attr in _K8_MUT and isinstance(n.func.value, ast.Name):
+                nm = n.func.value.id
+            elif isinstance(n, ast.Name) and isinstance(n.ctx, ast.Store) and n.id in gl:
+                nm = n.id
+                if nm not in glob:
+                    out.append((fn, nm, n))
+                    continue
+            if nm in glob and nm not in local:
+                out.append((fn, nm, n))
+    return out
+
+
+def rule_K8(chk, prog):
+    chk.rule("K8", "no function keeps state in a module-level container (a memo outside lru_cache: its key is not checked by K2 and "
+                   "clear_cache()/set_cache_maxsize() do not reach it)", floor=100)
+    if [x[1] for x in _module_memo_writes(ast.parse(_K8_FIXTURE))] != ["_labels"]:
+        raise AnalysisError("K8: the built-in positive fixture is not recognised (rule broken)")
+    for mname, m in sorted(prog.modules.items()):
+        if "torch" in mname or not mname.startswith(("yastn.tensor", "yastn.initialize", "yastn.sym", "yastn.backend", "yastn.krylov",
+                                                      "yastn.tn", "yastn.operators", "yastn._")):
+            continue
+        hits = _module_memo_writes(m.tree)
+        seen = set()
+        by_node = {id(x.node): x for x in prog.all_funcs() if x.module is m}
+        bad_fns = set()
+        for fn, nm, node in hits:
+            why = K8_EXCEPTIONS.get((m.relpath, nm))
+            if why:
+                if (fn.name, nm) not in seen:
+                    chk.note(f"K8 named exception {m.relpath}:{nm}: {why}")
+                seen.add((fn.name, nm))
+                continue
+            bad_fns.add(id(fn))
+            f = by_node.get(id(fn))
+            site = (f, node) if f is not None else (m.relpath, fn.name, node.lineno)
+            chk.bad("K8", site, f"{fn.name}: `{A.short(node, 50)}` -> module-level `{nm}`",
+                    f"{fn.name}() stores into the module-level container `{nm}`: a hand-written memo -- what it returns later depends on earlier "
+                    f"calls whenever its key omits an argument the value was computed from (e.g. einsum's label table keyed by the subscripts "
+                    f"but built from `order`), and clear_cache() / set_cache_maxsize(0) do not empty it")
+        for f in by_node.values():
+            if id(f.node) not in bad_fns:
+                chk.ok("K8", f, f"{f.short}: no module-level stores", sample=False)
+
+
+def rule_K9(chk, prog):
+    """Structures handed out by memoised functions are shared between tensors on a cache hit and distinct otherwise: an identity test
+    (`a.struct is b.struct`) therefore answers differently with a warm, a cold or a disabled cache.  Equality is the only comparison
+    that is independent of the cache."""
+    chk.rule("K9", "tensor metadata (struct, slices, hfs, mfs) is compared by value, never by identity", floor=0)
+    META = {"struct", "slices", "hfs", "mfs", "trans", "_trans", "t", "D", "s", "n"}
+    fx = ast.parse("def f(a, b):\n    return b.struct is a.struct\n")
+    def hits_of(tree):
+        out = []
+        # `x is y or x == y` is a shortcut of the equality test: the answer does not depend on the identity
+        shortcut = set()
+        for n in ast.walk(tree):
+            if isinstance(n, ast.BoolOp) and isinstance(n.op, ast.Or):
+                eqs = {frozenset((A.text(c.left), A.text(c.comparators[0]))) for c in n.values
+                       if isinstance(c, ast.Compare) and len(c.ops) == 1 and isinstance(c.ops[0], ast.Eq)}
+                for c in n.values:
+                    if isinstance(c, ast.Compare) and len(c.ops) == 1 and isinstance(c.ops[0], ast.Is) \
+                            and frozenset((A.text(c.left), A.text(c.comparators[0]))) in eqs:
+                        shortcut.add(id(c))
+        for n in ast.walk(tree):
+            if isinstance(n, ast.Compare) and any(isinstance(o, (ast.Is, ast.IsNot)) for o in n.ops) and id(n) not in shortcut:
+                sides = [n.left] + n.comparators
+                if all(isinstance(x, ast.Attribute) and x.attr in META for x in sides):
+                    out.append(n)
+        return out
+    if len(hits_of(fx)) != 1:
+        raise AnalysisError("K9: the built-in positive fixture is not recognised (rule broken)")
+    for f in prog.all_funcs():
+        if not f.module.name.startswith(("yastn.tensor", "yastn.initialize", "yastn.tn.mps", "yastn.krylov")) or "torch" in f.module.name:
+            continue
+        if " is " not in A.text(f.node):
+            continue
+        hs = hits_of(f.node)
+        for n in hs:
+            chk.bad("K9", (f, n), A.text(n), f"{f.short}(): `{A.text(n)}` tests the *identity* of metadata objects; memoised _meta_* functions return the "
+                    f"first caller's object on a hit and a new equal one on a miss, so the answer -- and the path taken -- depends on the state of the caches")
+        if not hs:
+            chk.ok("K9", f, f"{f.short}: no identity test of metadata", sample=False)
+
+
 def run(chk):
     prog = chk.prog
     chk.explanation = (
@@ -705,6 +829,8 @@ def run(chk):
     rule_K5(chk, prog)
     from . import e10 as _e10
     _e10.run_U3(chk, ("yastn.tensor", "yastn.initialize"), rule="K6")
+    rule_K8(chk, prog)
+    rule_K9(chk, prog)
     # NamedTuple eq/hash overrides
     for cname, mod in (("_struct", "yastn.tensor._auxiliary"), ("_slc", "yastn.tensor._auxiliary"),
                        ("_config", "yastn.tensor._auxiliary"), ("_Fusion", "yastn.tensor._merging")):
@@ -716,6 +842,8 @@ def run(chk):
 
 
 MUTANTS = [
+    ('einsum memoises its label table in a module-level dict', [('yastn/tensor/_einsum.py', "__all__ = ['ncon', 'einsum']\n", "__all__ = ['ncon', 'einsum']\n\n_einsum_labels = {}\n"), ('yastn/tensor/_einsum.py', "    d[','] = 0\n", "    d[','] = 0\n    d = _einsum_labels.setdefault((sin, sout), d)\n")], 'K8'),
+    ('add() takes a fast path on identical struct objects', 'yastn/tensor/_algebra.py', '    tensors, hfs = _pre_addition(*tensors)\n    datas = tuple((a.struct, a.slices) for a in tensors)', '    a = tensors[0]\n    if all(b.struct is a.struct and b.mfs == a.mfs and b.trans == a.trans for b in tensors[1:]):\n        hfs = a.hfs\n    else:\n        tensors, hfs = _pre_addition(*tensors)\n    datas = tuple((a.struct, a.slices) for a in tensors)', 'K9'),
     ('flag vector as index tuple', 'yastn/tensor/_contractions.py', '    fss = (True,) * nsym if a.config.fermionic is True else a.config.fermionic', '    fss = tuple(range(nsym)) if a.config.fermionic is True else a.config.fermionic', 'K7'),
     ('memoised function of Tensor objects', 'yastn/tensor/_merging.py', 'def _mask_tensors_leg_intersection(a, b, axa, axb):', '@lru_cache(maxsize=1024)\ndef _mask_tensors_leg_intersection(a, b, axa, axb):', 'K2'),
     ("memoised function reads module state", "yastn/tensor/_merging.py",
